@@ -86,8 +86,46 @@ theorem model_returns_the_minimiser (n : Nat) (lam : Rat) (hlam : 0 < lam) (lw c
 /-- non-vacuity: `n = 4`, `λ = 1`, data `0, 1, –, 9`, a level constraint at period 3 and a change constraint at period 1 are
 independent in the sense of `Independent`; the model's answer is the one `model_returns_the_minimiser` describes -/
 example : Independent 4 [3] [1] (by decide) (by decide) := by
-  refine ⟨fun a b _ => Subsingleton.elim a b, fun a b _ => Subsingleton.elim a b, fun i i' h => ?_⟩
-  exfalso; fin_cases i; fin_cases i'; simp [posF] at h
+  have one : ∀ (l : List Nat), l.length = 1 → ∀ a b : Fin l.length, a = b := by
+    intro l hl a b
+    exact Fin.ext (by have := a.isLt; have := b.isLt; omega)
+  refine ⟨fun a b _ => one _ rfl a b, fun a b _ => one _ rfl a b, fun i i' h => ?_⟩
+  exfalso
+  rw [one _ rfl i i'] at h
+  exact lt_irrefl _ h
+
+theorem mapM_isSome {α β : Type} (g : α → Option β) (l : List α) (h : ∀ x ∈ l, (g x).isSome = true) :
+    (l.mapM g).isSome = true := by
+  induction l with
+  | nil => simp
+  | cons c l ih =>
+    obtain ⟨d, hd⟩ := Option.isSome_iff_exists.1 (h c List.mem_cons_self)
+    obtain ⟨ds, hds⟩ := Option.isSome_iff_exists.1 (ih (fun x hx => h x (List.mem_cons_of_mem _ hx)))
+    simp [List.mapM_cons, hd, hds]
+
+/-- **`dataHpf` answers** (the function the driver runs against irispie): for `λ > 0`, two observations in every variant
+and independent constraints — as `setup` prepares them from the request — every variant is filtered successfully, and by
+`BridgeC14.dataHpf_trend_is_the_minimiser` every returned (unclipped) trend is the unique constrained minimiser.  All other
+side conditions are derived from `setup` (`BridgeC14.setup_side_conditions`). -/
+theorem dataHpf_answers (r : Request) (hlam : 0 < r.lam)
+    (hobs : ∀ col ∈ r.dcols, ∃ s t : Fin (setup r).n, s ≠ t ∧
+      obsOf (setup r).n ((Ser.mk r.dstart col).fromUntil (setup r).lo (setup r).hi) s = true ∧
+      obsOf (setup r).n ((Ser.mk r.dstart col).fromUntil (setup r).lo (setup r).hi) t = true)
+    (hind : Independent (setup r).n (setup r).lw (setup r).cw
+      (BridgeC14.setup_side_conditions r).2.2.1 (BridgeC14.setup_side_conditions r).2.2.2.1) :
+    (dataHpf id id r).isSome = true := by
+  obtain ⟨h1, h2, h3, h4, h5, h6⟩ := BridgeC14.setup_side_conditions r
+  have hall : ∀ col ∈ r.dcols,
+      (filterData id id (setup r).n r.lam (setup r).lw (setup r).cw (setup r).ld (setup r).cd
+        ((Ser.mk r.dstart col).fromUntil (setup r).lo (setup r).hi)).isSome = true := by
+    intro col hcol
+    obtain ⟨s, t, hst, hs, ht⟩ := hobs col hcol
+    exact (filterData_isSome_iff_independent id id (setup r).n r.lam hlam (setup r).lw (setup r).cw (setup r).ld (setup r).cd
+      _ (h6 col) h1 h2 h3 h4 h5 s t hst hs ht).2 hind
+  have hm := mapM_isSome _ _ hall
+  rw [C14.model_span_only_clips id id r]
+  obtain ⟨fs, hfs⟩ := Option.isSome_iff_exists.1 hm
+  rw [hfs]; rfl
 
 /-! ## rejection branches -/
 
